@@ -72,17 +72,49 @@ pub fn run(cfg: &Cfg, rep: &mut Report) {
     // programs is itself slow there, so the stream is shrunk to what can be consumed.
     let bounded = max_cases != usize::MAX;
     let spec = StreamSpec {
-        n_struct: if bounded { max_cases.saturating_mul(2) } else { cfg.scaled(if cfg.quick() { 8_000 } else { 200_000 }) },
+        n_struct: if bounded { max_cases.saturating_mul(2) } else { cfg.scaled(if cfg.quick() { 16_000 } else { 400_000 }) },
         enum_nodes: if bounded { 1 } else if cfg.quick() { 2 } else { 3 },
         enum_flags: vec![fl(""), fl("iu")],
         tweak,
         fixed, templates: !bounded };
+    // under Miri an instruction costs ~150 µs (with the hook ticks): a quadratic backtracking case must give up early
+    let fuel = if bounded { FUEL.min(8_000) } else { FUEL };
+    let budget_s = cfg.opt_usize("budget_s", usize::MAX) as u64;
+    let t0 = std::time::Instant::now();
     let mut cases = 0usize;
     for_each_program(cfg, rep, &spec, |p, rep, rng| {
         if cases >= max_cases {
             return;
         }
         let no_opt = p.idx % 5 == 0;
+        if bounded {
+            // wall-clock only bounds how much is explored under the slow tool, never a verdict
+            if t0.elapsed().as_secs() > budget_s {
+                rep.inc("skipped.miri_budget");
+                return;
+            }
+            // folding a property class (hundreds of ranges) takes minutes under Miri
+            let s = p.pattern_lossy();
+            if p.flags.i && (s.contains("\\p{") || s.contains("\\P{")) {
+                rep.inc("skipped.miri_icase_property");
+                return;
+            }
+        }
+        // Closing a legacy (non-unicode) /i class under Canonicalize costs tens of seconds per class
+        // under Miri and touches no unsafe code: in bounded mode such programs run without `i`.
+        let legacy_icase_class = bounded && p.flags.i && !p.flags.unicode_mode() && {
+            let s = p.pattern_lossy();
+            s.contains('[') || ["\\w", "\\W", "\\d", "\\D", "\\s", "\\S"].iter().any(|e| s.contains(e))
+        };
+        let adjusted;
+        let p = if legacy_icase_class {
+            let mut q = Program { idx: p.idx, pattern: p.pattern.clone(), flags: p.flags, mentioned: p.mentioned.clone(), source: p.source };
+            q.flags.i = false;
+            adjusted = q;
+            &adjusted
+        } else {
+            p
+        };
         let re = match engine::compile(&p.pattern, p.flags, no_opt) {
             Guarded::Ok(Ok(re)) => re,
             Guarded::Ok(Err(_)) => {
@@ -116,7 +148,7 @@ pub fn run(cfg: &Cfg, rep: &mut Report) {
                         break 'outer;
                     }
                     cases += 1;
-                    let r = engine::find_all(&re, hay, start, api, FUEL);
+                    let r = engine::find_all(&re, hay, start, api, fuel);
                     let h = fnv64(format!("{}|{}|{}|{:?}|{}", p.hash(), hay, start, api, no_opt).as_bytes());
                     match &r {
                         Guarded::Ok(ms) => {
@@ -149,7 +181,7 @@ pub fn run(cfg: &Cfg, rep: &mut Report) {
             // the string-returning APIs slice internally
             if cases < max_cases {
                 cases += 1;
-                let r = engine::guarded(FUEL, || (re.replace_all(hay, "$1-$0"), re.replace(hay, "${a}")));
+                let r = engine::guarded(fuel, || (re.replace_all(hay, "$1-$0"), re.replace(hay, "${a}")));
                 if let Guarded::Panic(m) = r {
                     rep.violation(violation("C06", "replace panicked", case_json(p, hay, 0).set("api", "replace").set("check", "c06"), m, "no panic".into()));
                     break 'outer;
